@@ -114,13 +114,13 @@ func tuneFor(repin bool) func(cfg *ipfscluster.Config) {
 	}
 }
 
-func (w *world) prepare(ctx context.Context, i int) error {
+func (w *world) prepare(ctx context.Context, i int, slow time.Duration) error {
 	m := w.members[i]
 	if m == nil {
 		m = &member{idx: i}
 		w.members[i] = m
 	}
-	p := &sim.NetPeer{Idx: i, Key: gen.Key(w.base + i), Dir: filepath.Join(w.dir, fmt.Sprintf("p%d", i))}
+	p := &sim.NetPeer{Idx: i, Key: gen.Key(w.base + i), Dir: filepath.Join(w.dir, fmt.Sprintf("p%d", i)), SlowRaft: slow}
 	if err := p.PrepareHost(ctx); err != nil {
 		return err
 	}
@@ -342,12 +342,14 @@ func run(c *fw.Ctx, idx int) {
 	n0 := r.Range(1, 3)
 	repin := r.Intn(4) != 0
 	tune := tuneFor(repin)
+	// small append batches make a joiner's catch-up take several rounds
+	rtune := sim.RaftTune{MaxAppendEntries: []int{1, 2, 64}[r.Intn(3)]}
 	var init []peer.ID
 	for i := 0; i < n0; i++ {
 		init = append(init, w.id(i))
 	}
 	for i := 0; i < n0; i++ {
-		if err := w.prepare(ctx, i); err != nil {
+		if err := w.prepare(ctx, i, 0); err != nil {
 			c.Inconclusive("host: " + err.Error())
 			return
 		}
@@ -360,7 +362,7 @@ func run(c *fw.Ctx, idx int) {
 		wg.Add(1)
 		go func(i int) {
 			defer wg.Done()
-			errs[i] = sim.StartPeer(ctx, w.members[i].peer, sim.NetOpts{Consensus: "raft", Peers: init, Tune: tune})
+			errs[i] = sim.StartPeer(ctx, w.members[i].peer, sim.NetOpts{Consensus: "raft", Peers: init, Tune: tune, RaftTune: rtune})
 		}(i)
 	}
 	wg.Wait()
@@ -437,9 +439,46 @@ func run(c *fw.Ctx, idx int) {
 			}
 			j := next
 			next++
-			if err := w.prepare(ctx, j); err != nil {
+			// half of the joiners sit behind a slow link for Raft traffic until they have joined
+			var slow time.Duration
+			if r.Intn(2) == 0 {
+				slow = 3 * time.Millisecond
+			}
+			if err := w.prepare(ctx, j, slow); err != nil {
 				c.Inconclusive("host: " + err.Error())
 				return
+			}
+			// a third of the joins find a long log: the joiner's catch-up then
+			// takes many append rounds, which widens the window in which a peer
+			// that does not wait would report ready
+			if r.Intn(3) == 0 {
+				var bw sync.WaitGroup
+				base := pinSeq
+				pinSeq += 4
+				var bmu sync.Mutex
+				okc := map[string]bool{}
+				for g := 0; g < 4; g++ {
+					bw.Add(1)
+					go func(g int) {
+						defer bw.Done()
+						ci := gen.Cid(88000+idx*100+base+1+g, g)
+						for k := 0; k < 40; k++ {
+							_, err := w.members[in[(g+k)%len(in)]].peer.Node.Cluster.Pin(ctx, ci, api.PinOptions{Name: fmt.Sprintf("bulk-%d-%d", g, k)})
+							if err == nil {
+								bmu.Lock()
+								okc[ci.String()] = true
+								bmu.Unlock()
+							}
+						}
+					}(g)
+				}
+				bw.Wait()
+				for k := range okc {
+					w.pins[k] = true
+				}
+				w.trace = append(w.trace, fmt.Sprintf("bulk: 160 pin operations on 4 cids (%d acknowledged cids)", len(okc)))
+				c.Eval("join/after-bulk")
+				w.checkPinsets(ctx, "bulk")
 			}
 			before := map[string]bool{}
 			for k := range w.pins {
@@ -458,7 +497,7 @@ func run(c *fw.Ctx, idx int) {
 					return gate
 				}
 			}
-			err := sim.StartPeer(ctx, w.members[j].peer, sim.NetOpts{Consensus: "raft", Staging: true, Tune: tune, NoWaitReady: true})
+			err := sim.StartPeer(ctx, w.members[j].peer, sim.NetOpts{Consensus: "raft", Staging: true, Tune: tune, NoWaitReady: true, RaftTune: rtune})
 			if err != nil {
 				c.Inconclusive("start joiner: " + err.Error())
 				w.members[j].alive = false
@@ -528,6 +567,7 @@ func run(c *fw.Ctx, idx int) {
 					return
 				}
 				c.Eval(fmt.Sprintf("join/observed/%s/gated=%v", strings.Fields(o.what)[0], gated))
+				c.Journal("  observed: %s applied=%d l0=%d gated=%v", o.what, o.applied, l0, gated)
 				if o.applied < l0 {
 					w.fail("C17/join/ready-before-log-caught-up", fmt.Sprintf("%s when its Raft applied index was %d, below the index %d of writes acknowledged before the join started", o.what, o.applied, l0), nil)
 					return
@@ -584,6 +624,10 @@ func run(c *fw.Ctx, idx int) {
 				}
 			}
 			err = jo.err
+			if sl := w.members[j].peer.Slow; sl != nil {
+				sl.SetDelay(0)
+				c.Eval("join/slow-link")
+			}
 			cwg.Wait()
 			if concCid.Defined() {
 				c.Eval(fmt.Sprintf("join/concurrent-pin/err=%v", concErr != nil))
@@ -721,7 +765,7 @@ func run(c *fw.Ctx, idx int) {
 			c.Journal("%s", w.trace[len(w.trace)-1])
 			w.members[victim].peer.Node.Close()
 			w.members[victim].alive = false
-			if err := w.prepare(ctx, victim); err != nil {
+			if err := w.prepare(ctx, victim, 0); err != nil {
 				c.Inconclusive("host: " + err.Error())
 				return
 			}
@@ -730,7 +774,7 @@ func run(c *fw.Ctx, idx int) {
 			for _, i := range w.aliveIn() {
 				ids = append(ids, w.id(i))
 			}
-			err := sim.StartPeer(ctx, w.members[victim].peer, sim.NetOpts{Consensus: "raft", Peers: ids, Tune: tune})
+			err := sim.StartPeer(ctx, w.members[victim].peer, sim.NetOpts{Consensus: "raft", Peers: ids, Tune: tune, RaftTune: rtune})
 			c.Eval(fmt.Sprintf("restart/n%d/err=%v", len(in), err != nil))
 			if err != nil {
 				w.fail("C17/restart/peer-does-not-come-back", "a restarted member did not become ready: "+err.Error(), nil)
